@@ -78,33 +78,38 @@ C(deco, form, keyfn, maxsize, body, alpha, pairs, depth, ttl) ==      \* one fun
   CX(deco, form, keyfn, maxsize, body, alpha, pairs, depth, ttl, 1, "tuple")
 D(q, t) == IF Deep = 1 THEN t ELSE q
 Falsy == {"none", "zero", "str", "empty"}
-AllConfigs ==
-  CASE Group = "spell" ->      \* every spelling, shallow
+ConfigsOf(grp) ==
+  CASE grp = "spell" ->      \* every spelling, shallow
          {C("lru", f, 0, 3, "plain", "full", 0, D(2, 3), 0) : f \in {"fn", "meth"}}
          \cup {C("lru", f, 1, 3, "plain", "full", 0, 2, 0) : f \in {"fn", "meth"}}
-    [] Group = "lru" ->        \* few keys, deep: eviction order, recency refresh, every maxsize
+    [] grp = "lru" ->        \* few keys, deep: eviction order, recency refresh, every maxsize
          {C("lru", "fn", 0, m, "plain", "small", 0, D(5, 6), 0) : m \in 1..3}
-         \cup {C("lru", "meth", 0, m, "plain", "small", 0, 5, 0) : m \in 1..3}
+         \cup {C("lru", "meth", 0, 2, "plain", "small", 0, 5, 0)} \cup {C("lru", "meth", 0, m, "plain", "small", 0, D(4, 5), 0) : m \in {1, 3}}
          \cup {C("lru", "fn", 1, 2, "plain", "tiny", 0, D(4, 6), 0)}
-    [] Group = "inst" ->       \* acached_per_instance: two instances, one is dropped and re-created
-         {C("inst", "meth", 0, 99, "plain", "full", 0, 2, 0), C("inst", "meth", 0, 99, "plain", "tiny", 0, 4, 0)}
-         \cup (IF Deep = 1 THEN {C("inst", "meth", 0, 99, "plain", "mid", 0, 3, 0), C("inst", "meth", 0, 99, "plain", "duo", 0, 5, 0)} ELSE {})
-    [] Group = "lazy" ->       \* alazy_constant: ttl 0 (never expires) and ttl 4 (Tick = 3, so elapsed is never = ttl)
-         {C("lazy", "fn", 0, 1, b, "none", 0, D(6, 7), t) : b \in {"plain", "block"}, t \in {0, 4}}
-    [] Group = "overlap" ->    \* batch-blocking bodies, two calls yielded together
+    [] grp = "inst" ->       \* acached_per_instance: two instances, one is dropped and re-created
+         {C("inst", "meth", 0, 99, "plain", "full", 0, 2, 0), C("inst", "meth", 0, 99, "plain", "tiny", 0, D(3, 4), 0),
+          C("inst", "meth", 0, 99, "plain", "duo", 0, D(4, 5), 0)}
+         \cup (IF Deep = 1 THEN {C("inst", "meth", 0, 99, "plain", "mid", 0, 3, 0)} ELSE {})
+    [] grp = "lazy" ->       \* alazy_constant: ttl 0 (never expires) and ttl 4 (Tick = 3, so elapsed is never = ttl)
+         {C("lazy", "fn", 0, 1, "plain", "none", 0, D(6, 7), t) : t \in {0, 4}}
+         \cup {C("lazy", "fn", 0, 1, "block", "none", 0, D(5, 7), t) : t \in {0, 4}}
+    [] grp = "overlap" ->    \* batch-blocking bodies, two calls yielded together
          {C("lru", "fn", k, 3, "block", "tiny", 1, D(2, 3), 0) : k \in {0, 1}}
          \cup {C("lru", "meth", 0, 3, "block", "duo", 1, 2, 0), C("inst", "meth", 0, 99, "block", "duo", 1, 2, 0)}
-    [] Group = "shared" ->     \* ONE decorator object applied to two functions: independent caches and budgets
+    [] grp = "shared" ->     \* ONE decorator object applied to two functions: independent caches and budgets
          {CX("lru", f, 0, m, "plain", "tiny", 0, 3, 0, 2, "tuple") : f \in {"fn", "meth"}, m \in 1..2}
          \cup {CX("lru", "fn", 0, 2, "plain", "keys3", 0, D(4, 5), 0, 2, "tuple")}
          \cup {CX("lru", "fn", 1, 2, "plain", "tiny", 0, 3, 0, 2, "tuple")}
          \cup {CX("inst", "meth", 0, 99, "plain", "tiny", 0, 3, 0, 2, "tuple")}
          \cup {CX("lazy", "fn", 0, 1, "plain", "none", 0, D(4, 5), t, 2, "tuple") : t \in {0, 4}}
-    [] Group = "falsy" ->      \* bodies whose legitimate result is None / 0 / "" / ()
+    [] grp = "falsy" ->      \* bodies whose legitimate result is None / 0 / "" / ()
          {CX("lru", f, 0, 2, "plain", "tiny", 0, 3, 0, 1, r) : f \in {"fn", "meth"}, r \in Falsy}
          \cup {CX("inst", "meth", 0, 99, b, "duo", 0, 3, 0, 1, r) : b \in {"plain", "block"}, r \in Falsy}
          \cup {CX("lazy", "fn", 0, 1, "plain", "none", 0, D(4, 5), t, 1, r) : t \in {0, 4}, r \in Falsy}
     [] OTHER -> {}
+AllConfigs == IF Group = "misc"      \* the four small groups in one TLC run (quick tier)
+              THEN ConfigsOf("lazy") \cup ConfigsOf("overlap") \cup ConfigsOf("shared") \cup ConfigsOf("falsy")
+              ELSE ConfigsOf(Group)
 Configs == {c \in AllConfigs : /\ (OnlyForm = "all" \/ c.form = OnlyForm)
                                /\ (OnlyKeyfn = "all" \/ ToString(c.keyfn) = OnlyKeyfn)}
 
